@@ -4,6 +4,11 @@ Monitors (all on executions of the real Membrane / InnateImmunity):
   * signature-gate reference model (rv.c10_model) replaying the add/learn/forget/import/threshold history and
     recomputing, with its own matcher, which active signatures match each input; every filter()/check() result is
     compared with it (allowed only if nothing at/above the threshold matches; matched set; reported level = max);
+  * the same oracle on long-lived gates whose rule set changes between two sightings of the byte-identical input: the input
+    passes, then the rules change so that an active signature at/above the threshold matches it - mostly WITHOUT changing the
+    number of signatures / learned patterns or the threshold (forget+learn back to back, learn/import over a same-named pattern
+    with another level or matcher, a custom signature replaced in place or removed and another added) - and it is filtered
+    again (membrane: case_mswap and rotate/overwrite steps in case_mhist; innate: case_iswap over add_pattern / list edits);
   * replay memory + 60 s sliding windows over the admission log under a virtual clock (rv.vclock in
     operon_ai.organelles.membrane); a CRITICAL/no-signature refusal needs a cause (rate window full or content
     refused before);
@@ -27,11 +32,12 @@ PID = "C10"
 LEVEL = "exploration"
 TECHNIQUE = ("runtime monitoring: signature-gate reference model replaying the rule history against every real filter()/check() result, "
              "virtual-clock sliding-window and replay-memory log, audit-trail growth hook, case/embedding metamorphic relations on real calls, "
-             "hostile-input totality sweep, and a line-level controlled thread scheduler on the rate limiter")
+             "rule-change sessions re-filtering the byte-identical input on one long-lived gate, hostile-input totality sweep, and a line-level controlled thread scheduler on the rate limiter")
 RULE = ("cases = sweep of %d hostile input kinds x 8 gate configurations, then seeded: " % len(M.HOSTILE_KEYS) + "stateless membrane / innate inputs built from instances of "
         "active, removed and inactive signatures (substring + regex, instances generated from the pattern) embedded in benign / hostile text, "
-        "membrane histories of <= 12 steps over {filter, learn, forget, import, add, set_threshold, advance clock}, directed block-relax-replay "
-        "histories, and 3-thread rate-limiter workloads under pb(1)+random schedules; non-trivial = the input matches >= 1 active signature or "
+        "membrane histories of <= 12 steps over {filter, learn, forget, import, add, set_threshold, rotate, overwrite, advance clock}, directed block-relax-replay "
+        "histories, rule-change sessions of 1-4 rounds on one gate (input passes -> count-preserving or plain rule change that makes an active "
+        "signature match it -> identical input again), and 3-thread rate-limiter workloads under pb(1)+random schedules; non-trivial = the input matches >= 1 active signature or "
         "trips a validator, a refusal path (rate / replay) is taken, or a schedule switches threads inside filter(); "
         "distinct = (gate, matched set, threshold, path taken)")
 ASSUMPTIONS = [
@@ -39,6 +45,9 @@ ASSUMPTIONS = [
     "when it has a cause: the content was refused before (replay memory) or rate_limit requests already passed the gate in the last 60 s",
     "'admitted' = allowed=True; at most rate_limit allowed results in any 60 s window (boundaries closer than 1 s to 60 s are never generated)",
     "replay memory covers inputs refused by a signature-scan (or replay) decision; a rate-limit refusal says nothing about the input",
+    "the gates' `signatures` / `patterns` lists are public attributes: replacing or deleting an element is a rule change like add_signature / add_pattern "
+    "(InnateImmunity offers no removal method), and a learn_threat / import_antibodies under an existing pattern text replaces that learned signature "
+    "(level and matcher of the latest one are the active ones)",
     "learn_threat is ignored when adaptive immunity is off, import_antibodies is always effective, learned patterns are keyed by pattern text",
     "a gate that blocks more than required is not flagged (the statement says 'only if'); substring matches whose answer differs between "
     "lower()/casefold()/upper() are not judged",
@@ -72,6 +81,10 @@ def plan(tier):
                         "membrane_rule_change_rounds": 800, "membrane_reseen_input_must_block_checked": 600,
                         "membrane_reseen_input_same_rule_counts": 300, "innate_rule_change_rounds": 150,
                         "innate_reseen_input_must_block_checked": 120, "innate_reseen_input_same_rule_counts": 60,
+                        "membrane_rule_change:rotate-learned": 150, "membrane_rule_change:overwrite-level": 150,
+                        "membrane_rule_change:overwrite-matcher": 50, "membrane_rule_change:replace-signature": 150,
+                        "membrane_rule_change:remove-add-signature": 80, "innate_rule_change:replace-pattern": 60,
+                        "innate_rule_change:remove-add-pattern": 50,
                         "thread_schedules": 1000, "thread_schedules_with_switch_inside": 300, "thread_rate_lock_acquisitions": 3000, "thread_schedules_limit_reached": 500,
                         "cases_that_printed": 20}}
 
